@@ -14,7 +14,7 @@ import time
 from harness.core import cfg_text, Machinery
 
 CONSTS = {"Loaders": {"RSAKey", "ECDSAKey", "Ed25519Key"}, "Guarded": True, "DerivesPublic": True}
-QUICK_RUNS = 3600          # quick tier: at most this many loads (one trace-validation run)
+QUICK_RUNS = 3000          # quick tier: at most this many loads (one trace-validation run)
 TRACE_KEYS = ("cls", "kt", "fmt", "stage", "idx", "class", "pw", "entry", "outcome")
 
 
@@ -109,19 +109,21 @@ def run(c):
     if len(cases) < 5000 or len(ident) != len(cases) or len(grammar) != 18 or len(paths) != 54:
         raise Machinery("TLC emitted %d cases (%d distinct), %d grammars, %d stage paths" % (
             len(cases), len(ident), len(grammar), len(paths)))
+    # the sensitivity runs (each toggle must violate its invariant) overlap with the driving phase
     sens = {}
 
     def sensitivity():
+        # (one after the other: core.run_tlc writes <module>_run.cfg into one directory)
         try:
-            c.mc("KeyFileFormat", cfg_text(constants=dict(CONSTS, Guarded=False), invariants=["FailureClassAllowed"]),
-                 expect="FailureClassAllowed", name="sensitivity: decoders raise their own classes (pinned tree)", workers=2)
-            c.mc("KeyFileFormat", cfg_text(constants=dict(CONSTS, Loaders={"ECDSAKey"}, DerivesPublic=False),
-                                           invariants=["HalvesAgree"]),
-                 expect="HalvesAgree", name="sensitivity: a loader that believes the file's copy of the public half",
-                 workers=2)
+            for constants, inv, name in (
+                    (dict(CONSTS, Guarded=False), "FailureClassAllowed",
+                     "sensitivity: decoders raise their own classes (pinned tree)"),
+                    (dict(CONSTS, Loaders={"ECDSAKey"}, DerivesPublic=False), "HalvesAgree",
+                     "sensitivity: a loader that believes the file's copy of the public half")):
+                c.mc("KeyFileFormat", cfg_text(constants=constants, invariants=[inv]), expect=inv, name=name, workers=2)
         except BaseException as e:     # noqa - re-raised in the main thread
             sens["err"] = e
-    th = threading.Thread(target=sensitivity)
+    threads = [threading.Thread(target=sensitivity)]
 
     # ---- sources: bundled, freshly generated, assembled from fields
     work = str(c.work / "files")
@@ -162,13 +164,15 @@ def run(c):
     nmust = sum(1 for j in jobs if j[3])
     deadline = (time.time() + 9.0) if c.quick else (t_start + 9.0 * 60)
     kf.CTX.update(cases=cases, docs=docs, donors=donors, foreign=foreign, workdir=work, from_path=True)
-    th.start()
     try:
-        raw = kf.run_parallel(jobs, c.seed, deadline, 8, work)
+        # (the threads are started once the workers are forked: no fork of a process that has threads running)
+        raw = kf.run_parallel(jobs, c.seed, deadline, 8, work, on_started=lambda: [th.start() for th in threads])
     except kf.DriverError as e:
-        th.join()
         raise Machinery(str(e))
-    th.join()
+    finally:
+        for th in threads:
+            if th.ident is not None:
+                th.join()
     if "err" in sens:
         raise sens["err"]
     recs, driver_errors = [], []
